@@ -78,6 +78,7 @@ def _read_case(draw) -> dict:
     return {
         "kind": "read", "lines": lines, "tail": tail, "limit": limit, "cuts": sorted(set(cuts)),
         "transport": draw(st.sampled_from(("base", "tcp", "serial"))),
+        "debug_log": draw(st.sampled_from((False, False, True))),
         "pre_read": draw(st.lists(st.booleans(), min_size=1, max_size=8)),
         "post_reads": draw(st.lists(st.integers(0, 3), min_size=1, max_size=8)),
     }
@@ -87,7 +88,7 @@ def _read_case(draw) -> dict:
 def _write_case(draw) -> dict:
     longish = st.sampled_from(("1;1;1;0;47;" + "é" * 60, "12;6;1;0;47;" + "温度" * 40 + " end", "x" * 70 + "é", "é" * 33, "0;255;3;0;9;" + "log " * 100 + "ü"))
     writes = draw(st.lists(st.one_of(st.sampled_from(GOOD_LINES), longish, st.text(st.characters(exclude_categories=("Cs",)), max_size=30)).map(lambda s: s + "\n"), min_size=1, max_size=8))
-    return {"kind": "write", "writes": writes, "peer_closes_after": draw(st.one_of(st.none(), st.integers(0, 8)))}
+    return {"kind": "write", "writes": writes, "peer_closes_after": draw(st.one_of(st.none(), st.integers(0, 8))), "debug_log": draw(st.sampled_from((False, False, True)))}
 
 
 LONG_WRITES = ("1;1;1;0;47;" + "a" * 90 + "\n", "12;6;1;0;47;" + "温度" * 40 + " end\n", "2;2;1;0;47;" + "é" * 70 + "\n", "3;255;3;0;9;" + "log " * 60 + "ü\n", "4;4;1;0;2;1\n")
@@ -139,6 +140,14 @@ def strategy(tier: str):
 def enumerate_cases(tier: str):
     yield from _fault_cases()
     yield from _duplex_enumerated()
+    for case in _fault_cases():
+        yield dict(case, debug_log=True)
+    # every kind of line with the library logging at DEBUG (what the CLI does), on every transport class
+    for transport in ("base", "tcp", "serial"):
+        lines = [["text", t] for t in GOOD_LINES] + [["bytes", b] for b in BAD_BYTES] + [["bytes", "\x00"], ["long", "a"], ["text", "1;1;1;0;0;after"]]
+        for tail in ("", "1;2;3", "\xff", "\xc3"):
+            yield {"kind": "read", "lines": lines, "tail": tail, "limit": 128, "cuts": [], "transport": transport, "pre_read": [False], "post_reads": [3], "debug_log": True}
+        yield {"kind": "write", "writes": [g + "\n" for g in GOOD_LINES] + ["12;6;1;0;47;" + "温度" * 40 + "\n"], "peer_closes_after": None, "debug_log": True}
 
 
 class _Stub:
@@ -633,6 +642,16 @@ def _run_fault(case: dict) -> Outcome:
             except TransportError:
                 if what != "connect":
                     return fail("connect-fails", f"{what}: connect raised TransportError")
+                # the attempt failed: the transport is (still) not connected, and using it says so with a transport error
+                for label, action in (("read", transport.read), ("write", lambda: transport.write("1;1;1;0;0;1\n")), ("disconnect", transport.disconnect)):
+                    try:
+                        await action()
+                    except TransportError:
+                        continue
+                    except Exception as err:  # noqa: BLE001
+                        return fail(f"after-failed-connect:{label}-leak:{type(err).__name__}", f"connect failed with {case['exc']}; {label} on the unconnected transport raised {err!r}")
+                    if label != "disconnect":
+                        return fail(f"after-failed-connect:{label}-no-error", f"connect failed with {case['exc']}; {label} on the unconnected transport returned normally")
                 return None
             except Exception as err:  # noqa: BLE001
                 return fail(f"connect-leak:{type(err).__name__}", f"connect with {case['exc']} raised {err!r}")
@@ -714,6 +733,15 @@ def _run_fault(case: dict) -> Outcome:
 
 
 def run_case(case: dict) -> Outcome:
+    if not case.get("debug_log"):
+        return _run_case(case)
+    with env.debug_logging(True):  # the library logging at DEBUG, as under the bundled CLI
+        out = _run_case(case)
+    out.classes = tuple(out.classes or ()) + ("debug-log",)
+    return out
+
+
+def _run_case(case: dict) -> Outcome:
     if case["kind"] == "duplex":
         return _run_duplex(case)
     if case["kind"] == "read":
